@@ -380,7 +380,7 @@ def plan_key_semantics(ctx):
 
 
 ORD_TREES_MAP = ["maptree-i32", "maptree-str"]
-ORD_TREES_SET = ["settree-i32", "settree-str"]
+ORD_TREES_SET = ["settree-i32", "settree-str", "settree-plain"]
 ORD_LISTS = ["maplist-i32", "maplist-str", "setlist-i32", "setlist-str"]
 
 COVER_RULE = ("model: every history over the key universe (fixpoint over canonical arena states, unbounded length); conformance: "
